@@ -126,8 +126,36 @@ def main():
             return
         raise OracleFired('parse and the reference disagree')
 
+    def target_c18(data):
+        """list_names(text) vs the NAME tokens of the reference lexer, in order; ParserError (after exactly the names before it) at an illegal character"""
+        try:
+            text = data.decode('utf-8', 'surrogatepass')
+        except UnicodeDecodeError:
+            text = data.decode('latin-1')
+        stats['texts'] += 1
+        if stats['texts'] % 1000 == 0:
+            json.dump(stats, open(os.path.join(work, 'stats.json'), 'w'))
+        try:
+            truth, bad = [t[1] for t in reflex.tokens(text) if t[0] == 'NAME'], False
+        except reflex.LexError as e:
+            truth, bad = [t[1] for t in e.tokens if t[0] == 'NAME'], True
+        got, err = [], None
+        try:
+            for n in P.list_names(text):
+                got.append(n)
+        except BaseException as e:       # noqa
+            err = e
+        stats['lexically_invalid' if bad else 'valid'] += 1
+        if bad:
+            if not isinstance(err, ParserError) or got != truth:
+                raise OracleFired('list_names on a lexically invalid text')
+        elif err is not None or got != truth:
+            raise OracleFired('list_names differs from the NAME tokens of the reference lexer')
+
     if mode == 'c06':
         target = target_c06
+    if mode == 'c18':
+        target = target_c18
     os.makedirs(os.path.join(work, 'artifacts'), exist_ok=True)
     atheris.Setup([sys.argv[0], os.path.join(work, 'corpus'), '-max_total_time=%s' % seconds, '-seed=%s' % seed, '-max_len=400', '-timeout=20', '-rss_limit_mb=2500',
                    '-artifact_prefix=%s/' % os.path.join(work, 'artifacts'), '-print_final_stats=1', '-verbosity=0'], target)
